@@ -309,6 +309,7 @@ func genPubHistory(r *vh.Rng) *histT {
 	for k := 0; k < steps; k++ {
 		var cand []hnode
 		var st stepT
+		giveUp := false
 		for try := 0; ; try++ {
 			cand = append([]hnode{}, pool...)
 			if try > 0 { // the float guard refused the last draw: move some utilisations
@@ -336,12 +337,19 @@ func genPubHistory(r *vh.Rng) *histT {
 			if floatOrderExact(&input{nodes: st.nodes, metrics: st.metrics, specs: h.specs}) {
 				break
 			}
-			if try > 60 {
-				panic("generator: cannot find a publication step whose float order is exact")
+			if try > 40 {
+				st, cand, giveUp = uniformStep(r, cand, pivots, h.specs)
+				break
 			}
+		}
+		if giveUp {
+			break
 		}
 		pool = cand
 		h.steps = append(h.steps, st)
+	}
+	if len(h.steps) == 0 {
+		h.steps = append(h.steps, stepT{})
 	}
 	return h
 }
